@@ -168,6 +168,13 @@ class Codec:
         else:
             next_msg = len(msg)
 
+        # a frame ends with its CheckSum field: what follows is not part of it
+        checksum_idx = msg.find(self.SOH + "10=", 0, next_msg)
+        if checksum_idx != -1:
+            frame_end = msg.find(self.SOH, checksum_idx + 1, next_msg)
+            if frame_end != -1:
+                next_msg = frame_end + 1
+
         encoded_msg = rawmsg[valid_idx : next_msg + valid_idx]
 
         msg = msg[:next_msg].split(self.SOH)
